@@ -34,3 +34,10 @@ fn ref_misuse() {
 fn bump(ref v: u32) {
     v += 1;
 }
+
+fn inside_macros(x: u8) -> Array<felt252> {
+    let items = array![undefined_in_macro,  1, 2];
+    println!("{} {}",  x, also_undefined);
+    assert!(x ==  not_here, "message {}", x);
+    items
+}
